@@ -2115,7 +2115,7 @@ class WBEMConnection:  # pylint: disable=too-many-instance-attributes
         # pywbem config variable AUTO_GENERATE_SFCB_UEP_HEADER.
         if AUTO_GENERATE_SFCB_UEP_HEADER and \
                 methodname == 'UpdateExpiredPassword' and \
-                objectname.classname == 'SFCB_Account':
+                localobject.classname == 'SFCB_Account':
             cimxml_headers.append(('Pragma', 'UpdateExpiredPassword'))
 
         # Create parameter list
